@@ -878,9 +878,20 @@ func (r *run) doStep(st step, exp *expState) (drift string, err error) {
 			sl.failed = true
 			sl.cmd <- command{}
 		}
+		failedHop := sl.hop
 		e, err := r.await(sl)
 		if err != nil {
 			return "", err
+		}
+		// additionalAnswer: when an inner chase came back with the alias but not the
+		// address, the outer loop asks for the final target itself once more; the
+		// downstream that did not answer does not answer the retry either
+		for tries := 0; st.Op == "NoAnswer" && !e.done && e.hop == failedHop && tries < 12; tries++ {
+			r.res.Count("outer_chase_retries", 1)
+			sl.cmd <- command{}
+			if e, err = r.await(sl); err != nil {
+				return "", err
+			}
 		}
 		if e.done {
 			pcs := r.complete(sl, ev, where)
@@ -1042,6 +1053,7 @@ func (r *run) doStep(st step, exp *expState) (drift string, err error) {
 		}
 	case "TickA":
 		r.tick(argInt(a[0]))
+		ev["now"] = r.vnow
 	default:
 		return "", fmt.Errorf("unknown op %q", st.Op)
 	}
